@@ -136,7 +136,9 @@ inline bool run_inner(Tape& t, Report& rep, Focus focus)
     const ucifmt::Fmt& FMT = ucifmt::fmt(&rep);  // parsers calibrated on the start position (first use in this process)
     send("ucinewgame");
     send("setoption name Polyglot Book value /nonexistent-verif-book");
-    send("setoption name Polyglot Sample value best");
+    // C19 sessions use both selection policies; the others keep `best` (deterministic answers)
+    const bool randomPolicy = focus == F_C19 && t.flag();
+    send(std::string("setoption name Polyglot Sample value ") + (randomPolicy ? "random" : "best"));
     M.newgame_board = FMT.newgame_board;
     M.newgame();
     int ncmd = 3 + int(t.choose(12));
@@ -276,7 +278,7 @@ inline bool run_inner(Tape& t, Report& rep, Focus focus)
             std::vector<std::string> subset;
             if (t.chance(1, 4))
             {
-                go += " searchmoves";
+                std::string sm = " searchmoves";
                 int n = 1 + int(t.choose(uint32_t(std::min<size_t>(3, legal.size()))));
                 for (int a = 0; a < n; ++a)
                 {
@@ -284,10 +286,18 @@ inline bool run_inner(Tape& t, Report& rep, Focus focus)
                     if (std::find(subset.begin(), subset.end(), u) == subset.end())
                     {
                         subset.push_back(u);
-                        go += " " + u;
+                        sm += " " + u;
                     }
                 }
                 rep.cls("uci:go_searchmoves");
+                // UCI fixes no order for the parameters of `go`: the move list may come before the other limits
+                if (t.chance(1, 3))
+                {
+                    go = "go" + sm + go.substr(2);
+                    rep.cls("uci:go_searchmoves_before_other_limits");
+                }
+                else
+                    go += sm;
             }
             size_t mark = R.out.size();
             C.visits = 0;
@@ -347,6 +357,30 @@ inline bool run_inner(Tape& t, Report& rep, Focus focus)
                     bookAllowed = all;
                 }
                 if (!bookAllowed) rep.cls("uci:go_book_record_excluded_by_searchmoves");
+                else if (bit != M.book.end() && randomPolicy)
+                {
+                    // random policy: the answer is a positive-weight record of the key; a key whose records all have weight
+                    // zero offers nothing that may be played, so the answer has to come from a search
+                    long sum = 0;
+                    for (auto& r : bit->second) sum += r.weight;
+                    bool restricted = !subset.empty();
+                    if (sum == 0)
+                    {
+                        rep.cls("uci:go_random_policy_all_zero_weights");
+                        if (!searched)
+                            return rep.fail("book:uci:zero_weight_move_played", "every record of the current position's key has weight zero, yet '" + best +
+                                                                                    "' was answered without a search under the random policy\n position " + ref::to_fen(M.cur) + "\n session: " + transcript);
+                    }
+                    else if (!restricted)
+                    {
+                        rep.cls("uci:go_random_policy_key_in_book");
+                        bool ok = false;
+                        for (auto& r : bit->second) ok |= (r.weight > 0 && r.uci == best);
+                        if (!ok || searched)
+                            return rep.fail("book:uci:random_policy", "the current position's key is in the book (weight sum " + std::to_string(sum) + ") but the answer '" + best + "' " +
+                                                                          (searched ? "came from a search" : "is not a positive-weight record of it") + "\n position " + ref::to_fen(M.cur) + "\n session: " + transcript);
+                    }
+                }
                 else if (bit != M.book.end())
                 {
                     int maxw = 0;
@@ -532,7 +566,7 @@ inline bool run_inner(Tape& t, Report& rep, Focus focus)
             for (int a = 0; a < n; ++a)
             {
                 const ref::Move& m = lm[t.choose(uint32_t(lm.size()))];
-                uint16_t code = book_code(bp, m), w = uint16_t(1 + t.choose(50));
+                uint16_t code = book_code(bp, m), w = uint16_t(t.chance(1, 3) ? t.choose(3) : 1 + t.choose(50));  // zero weights too
                 for (int b = 7; b >= 0; --b) bytes += char((key >> (8 * b)) & 0xFF);
                 bytes += char(code >> 8);
                 bytes += char(code & 0xFF);
